@@ -16,6 +16,11 @@ int main(void)
       { matrix *c = dup_matrix(py); MLRPredictY(xnew, NULL, m, py, NULL, NULL, NULL); RB(0, same_m(py, c));
         junk_m(py); MLRPredictY(xnew, NULL, m, py, NULL, NULL, NULL); RB(0, same_m(py, c)); DelMatrix(&c); }
       DelMatrix(&py);
+      { /* the statistics of the training data asked for WITHOUT the (optional) residual matrix: the same R2 and SDEC the fit stored */
+        dvector *r2b, *sdb; initMatrix(&py); initDVector(&r2b); initDVector(&sdb);
+        MLRPredictY(x, y, m, py, NULL, r2b, sdb);
+        RB(1, same_v(r2b, m->r2y_model) && same_v(sdb, m->sdec));
+        DelDVector(&r2b); DelDVector(&sdb); DelMatrix(&py); }
       pr_long("reuse_bad", reuse_mask);
       DelMLRModel(&m); DelMatrix(&x); DelMatrix(&y); DelMatrix(&xnew);
     }
